@@ -287,6 +287,7 @@ Print Assumptions C07_roundtrip_relative_to_lexer.
    stream of the changed text is the unknown `orl`.  The theorems are about the repaired formatter,
    for every `orl`. *)
 Require Import Blots.Formatter Blots.FmtTokens Blots.proofs.FmtItems.
+Require Import Blots.proofs.Relined.
 Require Blots.Emit Blots.PegToItems.
 
 (* layout_preserves_items.  For EVERY well-formed tree, every max_columns `w` and every indentation
@@ -394,25 +395,31 @@ Example C07_example_layout_multiline :
   lview (render (fmtd O 10 e 0)) = lview (print_text FX_ALL (policy_new fixed_opinfo) num_text e).
 Proof. vm_compute. repeat split. Qed.
 
-(* ---------------------------------------------------------------- refuted on the code before fixes/C07-crlf-lines.diff *)
-(* F55, class crlf-lines.  `xs via x => "a\r\nb"`: the string literal makes the right operand's text
-   span two lines, format_binary_op_multiline re-assembles it from str::lines(), which drops the "\r":
-   the formatted text carries the literal "a\nb".  Witness on Formatter.v (the model of the code as it
-   is), every width at which the first line fits; replayed on the implementation by the check. *)
+(* ---------------------------------------------------------------- F55 (class crlf-lines), repaired *)
+(* Before /repo 5eeeb29 format_binary_op_multiline re-assembled the right operand of via/into/where
+   from str::lines(), which drops a "\r" before each "\n": `xs via x => "a\r\nb"` was formatted with
+   the literal "a\nb" (the witness lemma C07_layout_crlf_refuted of that model is in the history).
+   The repaired code splits on "\n" only; Formatter.v follows, and the re-assembly is the identity
+   for EVERY text, so no Relined piece is ever produced. *)
 Definition s_crlf : string := String (Ascii.ascii_of_nat 97) (String CRc (String NLc "b")).
 Definition w_crlf : expr := EBin Via (EId "xs") (ELam [AReq "x"] (EStr s_crlf)).
-Theorem C07_layout_crlf_refuted :
+Theorem C07_relined_identity : forall s, contains_nl s = true -> relined s = s.
+Proof. exact relined_identity. Qed.
+Check C07_relined_identity : forall s, contains_nl s = true -> relined s = s.
+Print Assumptions C07_relined_identity.
+
+Theorem C07_layout_crlf_repaired :
   let O := printer_oracles FX_ALL (policy_new fixed_opinfo) num_text true in
   wf w_crlf = true /\ lam_ok w_crlf = true /\ cr_free w_crlf = false /\
-  doc_relined (fmtd O 80 w_crlf 0) = [ELam [AReq "x"] (EStr s_crlf)] /\
-  lview (render (fmtd O 80 w_crlf 0)) <> lview (print_text FX_ALL (policy_new fixed_opinfo) num_text w_crlf).
-Proof. vm_compute. repeat split; try discriminate. Qed.
-Check C07_layout_crlf_refuted :
+  doc_relined (fmtd O 80 w_crlf 0) = [] /\
+  lview (render (fmtd O 80 w_crlf 0)) = lview (print_text FX_ALL (policy_new fixed_opinfo) num_text w_crlf).
+Proof. vm_compute. repeat split. Qed.
+Check C07_layout_crlf_repaired :
   let O := printer_oracles FX_ALL (policy_new fixed_opinfo) num_text true in
   wf w_crlf = true /\ lam_ok w_crlf = true /\ cr_free w_crlf = false /\
-  doc_relined (fmtd O 80 w_crlf 0) = [ELam [AReq "x"] (EStr s_crlf)] /\
-  lview (render (fmtd O 80 w_crlf 0)) <> lview (print_text FX_ALL (policy_new fixed_opinfo) num_text w_crlf).
-Print Assumptions C07_layout_crlf_refuted.
+  doc_relined (fmtd O 80 w_crlf 0) = [] /\
+  lview (render (fmtd O 80 w_crlf 0)) = lview (print_text FX_ALL (policy_new fixed_opinfo) num_text w_crlf).
+Print Assumptions C07_layout_crlf_repaired.
 
 (* ---------------------------------------------------------------- kept, not proved (character level) *)
 (* (a) the tie between the item stream and the TEXT of a layout: under the lexical view the laid-out
